@@ -55,6 +55,8 @@ def key20(e, A, B, clause):
         return "%s %s: operands of different shape (must answer false)" % (be, op)
     if be == "ndarray" and op == "dot" and A and B and A[2] == 1 and B[2] == 1 and (A[1] >= 2 or B[1] >= 2):
         return "ndarray dot: column-vector operands (Nx1)"
+    if be == "ndarray" and op == "from_row_vector" and e.get("anat"):
+        return "ndarray from_row_vector: vector derived from a natively constructed array (inverted axis: negative stride)"
     if be == "ndarray" and op == "unique" and e.get("anat"):
         return ("ndarray unique: operand cut out of a larger ndarray buffer (slice_move / slice_axis_inplace / "
                 "remove_index / stepped slice)")
